@@ -47,11 +47,14 @@ INFORMATIONAL = ['unknown-operand-type', 'unknown-position', 'instruction-withou
 KEYWORDS = sorted(R.KEYWORDS)
 MIN_VERSIONS = ['0.3.0', '0.3.1', '0.3.10', '0.4.0', '0.4.2', '0.4.3a1', '0.4.3b1', '0.4.3b2', '0.4.3rc1', '0.4.3', '0.4.4',
                 '0.4.10', '0.5.0', '0.10.0', '1.0.0', '0.2.9', '0.2.10', '0.1.0', '0.04.2', '10.0.0', '0.3.0b1']
-ISA_VERSIONS = ['1.9.0', '1.10.0', '1.2.3', '0.9.12', '2.0.0', '1.10.1', '1.09.0', '2.0.0rc1', '2.0.0a1', '1.10.0b2']
+ISA_VERSIONS = ['1.9.0', '1.10.0', '1.2.3', '0.9.12', '2.0.0', '1.10.1', '1.09.0', '2.0.0rc1', '2.0.0a1', '1.10.0b2', 0, '0.0.1', 1]
 OPS = ['==', '>=', '<=', '>', '<']
 
 
 def vkey(v):
+    v = str(v)
+    if re.match(r'^\d+(\.\d+)?$', v):
+        v = v + '.0' * (2 - v.count('.'))        # "0" and "1.2" are 0.0.0 and 1.2.0
     m = re.match(r'^(\d+)\.(\d+)\.(\d+)(?:(a|b|rc)(\d+))?$', v)
     if not m:
         raise ValueError(v)
@@ -197,7 +200,9 @@ def _cases(draw, tier):
     else:
         op = draw(st.sampled_from(OPS))
         rv = draw(st.sampled_from(ISA_VERSIONS + [ver]))
-        m_pre = re.match(r'^(\d+\.\d+\.\d+)(?:a|b|rc)\d+$', ver)
+        if str(ver) in ('0', '0.0') and draw(st.booleans()):
+            rv = draw(st.sampled_from(['0.0.1', '0.0.0', 0]))      # version zero against its nearest neighbours
+        m_pre = re.match(r'^(\d+\.\d+\.\d+)(?:a|b|rc)\d+$', str(ver))
         if m_pre and draw(st.booleans()):
             rv = m_pre.group(1)          # a pre-release against the release it precedes
             op = draw(st.sampled_from(['<', '<', '<', '<=', '>', '>=', '==']))
@@ -226,7 +231,7 @@ def _cases(draw, tier):
             case['define_word'] = draw(st.sampled_from(words))
     if draw(st.integers(0, 2)) == 0:
         # an earlier, satisfied requirement for the same language must not excuse a later one
-        case['first'] = draw(st.sampled_from([f'#require "{name}"', f'#require "{name} >= 0.0.1"', f'#require "{name} == {ver}"']))
+        case['first'] = draw(st.sampled_from([f'#require "{name}"', f'#require "{name} >= 0.0.0"', f'#require "{name} == {ver}"']))
         case['second_in_include'] = draw(st.booleans())
     return case
 
@@ -288,7 +293,7 @@ def execute(case, ctx):
             try:
                 a, b = vkey(isa_ver), vkey(case['req_version'])
                 ok = R.CMP[case['op']](a, b)
-                sa, sb = isa_ver, case['req_version']
+                sa, sb = str(isa_ver), str(case['req_version'])
                 nontrivial = R.CMP[case['op']](sa, sb) != ok
             except ValueError:
                 ok = None
